@@ -70,10 +70,16 @@ type sequence struct {
 	Role  int           `json:"role"` // X = cast.Tenants[Role]
 	Steps []presentable `json:"steps"`
 	Ops   []seqOp       `json:"ops_before_step"` // Ops[i] is executed before Steps[i] (Ops[0] is always "")
+	// Sessions: every client keeps a tls.ClientSessionCache across the steps, as a long-running client
+	// does; a certificate presented again then RESUMES its TLS 1.3 session on the new connection
+	Sessions bool `json:"client_session_cache,omitempty"`
 }
 
 func (q sequence) String() string {
 	s := fmt.Sprintf("seq[X=t%d]", q.Role)
+	if q.Sessions {
+		s = fmt.Sprintf("seq[X=t%d,clients resume TLS sessions]", q.Role)
+	}
 	for i, p := range q.Steps {
 		if q.Ops[i] != opNone {
 			s += " ; " + string(q.Ops[i])
@@ -205,6 +211,7 @@ type stepResult struct {
 	DirectOK  bool        `json:"verify_peer_certificate_accepts"`
 	DirectErr string      `json:"verify_peer_certificate_error,omitempty"`
 	Outcomes  []outcome   `json:"outcomes"`
+	Resumed   int         `json:"connections_that_resumed_a_tls_session"`
 }
 
 type sequenceResult struct {
@@ -255,6 +262,8 @@ func runSequence(q sequence) (*sequenceResult, []violation, error) {
 	res := &sequenceResult{Sequence: q}
 	var viols []violation
 	reqs := seqRequests(cast.Tenants[1-q.Role])
+	caches := map[presentable]tls.ClientSessionCache{}
+	shown := map[presentable]bool{}
 	for i, p := range q.Steps {
 		if err := w.apply(q.Ops[i]); err != nil {
 			return nil, nil, err
@@ -269,12 +278,27 @@ func runSequence(q sequence) (*sequenceResult, []violation, error) {
 			tc := c.tlsCert()
 			ccfg.GetClientCertificate = func(*tls.CertificateRequestInfo) (*tls.Certificate, error) { return &tc, nil }
 		}
+		if q.Sessions {
+			if caches[p] == nil {
+				caches[p] = tls.NewLRUClientSessionCache(8)
+			}
+			ccfg.ClientSessionCache = caches[p]
+			if shown[p] && p != pNone {
+				sigKind = "resumed-session" // same client, same certificate, new connection
+			}
+			shown[p] = true
+		}
 		// real TLS first (a completed genuine handshake is what a cache would remember), then the callback
 		ocs, err := drive(q.String(), ts.URL, ccfg, rec, reqs)
 		if err != nil {
 			return nil, nil, err
 		}
 		st.Outcomes = ocs
+		for _, oc := range ocs {
+			if oc.Resumed {
+				st.Resumed++
+			}
+		}
 		verr := verify(raw, nil)
 		st.DirectOK = verr == nil
 		if verr != nil {
@@ -301,6 +325,24 @@ func genSequences(tier string) []sequence {
 			for _, b := range allPresentables {
 				for _, op := range ops {
 					out = append(out, sequence{Role: role, Steps: []presentable{a, b}, Ops: []seqOp{opNone, op}})
+				}
+			}
+		}
+	}
+	// the same client coming back with a session cache: every presentable twice x op x role; thorough
+	// also every ordered pair (a, b) continued by a again: a ; op ; b ; a
+	for role := 0; role < 2; role++ {
+		for _, a := range allPresentables {
+			for _, op := range ops {
+				out = append(out, sequence{Role: role, Steps: []presentable{a, a}, Ops: []seqOp{opNone, op}, Sessions: true})
+			}
+		}
+	}
+	if tier == "thorough" {
+		for _, a := range allPresentables {
+			for _, b := range allPresentables {
+				for _, op := range []seqOp{opNone, opRevoke} {
+					out = append(out, sequence{Role: 0, Steps: []presentable{a, b, a}, Ops: []seqOp{opNone, op, opNone}, Sessions: true})
 				}
 			}
 		}
